@@ -118,7 +118,7 @@ def main():
         meta = json.load(open(os.path.join(seeded, sid, "meta.json")))
         if "no longer applies" in meta.get("detected_by", ""):
             continue
-        entries.append((sid, "violation", "seeded change " + sid, ("patch", os.path.join(seeded, sid, "patch.diff"))))
+        entries.append((meta.get("property", sid[:3]), "violation", "seeded change " + sid, ("patch", os.path.join(seeded, sid, "patch.diff"))))
     for prop, expect, what, action in entries:
         if only and prop not in only:
             continue
